@@ -45,6 +45,13 @@ var (
 	nilSlice   []interface{}
 	theIntMap  = map[string]int{"a": 1}
 	theIntList = []int{1, 2}
+	// pointers to ordinary JSON documents: still not JSON values themselves
+	ifaceDoc interface{} = map[string]interface{}{"a": 1.0, "b": []interface{}{1.0, 2.0}}
+	ptrIface             = &ifaceDoc
+	mapDoc               = map[string]interface{}{"a": 1.0}
+	ptrMap               = &mapDoc
+	sliceDoc             = []interface{}{1.0, "x"}
+	ptrSlice             = &sliceDoc
 )
 
 type kindT struct {
@@ -85,6 +92,9 @@ var kinds = []kindT{
 	// a fresh pointer on every use: two occurrences are deeply equal but not identical
 	{"freshptr", func() interface{} { return &myPtrStruct{B: 9} }},
 	{"ifacestruct", func() interface{} { return myIfaceStruct{V: []int{1, 2}} }},
+	{"ptriface", func() interface{} { return ptrIface }},
+	{"ptrmap", func() interface{} { return ptrMap }},
+	{"ptrslice", func() interface{} { return ptrSlice }},
 }
 
 func kindIndex(name string) int {
